@@ -70,8 +70,12 @@ func NewSymbolTable(opts ...SymbolTableOption) *SymbolTableStruct {
 }
 
 // Check if a given symbol exists.
+// This function is thread-safe.
 func (s *SymbolTableStruct) ExistsId(symbol Symbol) bool {
-	return symbol < Symbol(len(s.idTable)) && symbol > 0
+	s.mutex.RLock()
+	defer s.mutex.RUnlock()
+
+	return symbol < Symbol(len(s.idTable)) && symbol >= 0
 }
 
 // Check if a symbol with the given name exists.
